@@ -573,3 +573,43 @@ def every_line_search_gets_the_same_settings(ctx):
         ctx.check(gt == want_tol and gm == want_max, 'PowellDirectionalSolver._Step#linesearch[%d]' % calls.index(c), 'tol = xtol*100, maxiter = imax (from the settings)',
                   'the line search at line %d runs with tol=%s, maxiter=%s instead of the step\'s (xtol*100, imax): the three searches of one sweep are no longer the same Brent search'
                   % (c.lineno, T.show(gt)[:60] if gt else 'default', T.show(gm)[:60] if gm else 'default (500)'), f, enclosing_stmt(c))
+
+
+WRAPPER_STOP_RULES = {
+    # wrapper: {termination factory: tolerance roles of its first arguments, by the wrapper's own parameter names}
+    SO + ':fmin': {'CandidateRelativeTolerance': ('xtol', 'ftol'), 'VTRChangeOverGeneration': ('ftol',)},
+    SO + ':fmin_powell': {'NormalizedChangeOverGeneration': ('ftol', 'gtol'), 'VTRChangeOverGeneration': ('ftol',)},
+}
+
+
+@rule('C08.i', min_instances=4)
+def wrappers_build_the_reference_stop_rule(ctx):
+    """fmin stops on CandidateRelativeTolerance(xtol, ftol) - the reference fmin's (xtol, ftol) test - and fmin_powell on NormalizedChangeOverGeneration(ftol, gtol) - the reference's ftol test (VTRChangeOverGeneration(ftol) when the first is switched off): every stop rule a wrapper constructs receives the caller's tolerances in these roles (iteration and evaluation counts are comparable with the reference only then)"""
+    for anchor, table in WRAPPER_STOP_RULES.items():
+        f = ctx.func(anchor)
+        imports = {}
+        for n in walk_no_nested(f.node):
+            if isinstance(n, ast.ImportFrom) and n.module and n.module.endswith('termination'):
+                for a in n.names:
+                    imports[a.asname or a.name] = a.name
+        found = {}
+        b = T.Builder()
+        for st in stmts_of(f.node):
+            if isinstance(st, ast.Assign) and len(st.targets) == 1 and isinstance(st.targets[0], ast.Name) and isinstance(st.value, ast.Call) \
+                    and isinstance(st.value.func, ast.Name) and imports.get(st.value.func.id) in table:
+                fac = imports[st.value.func.id]
+                found.setdefault(fac, []).append((st, [T.simp(T.term(a)) for a in st.value.args], st.value.keywords))
+        for fac, roles in sorted(table.items()):
+            ctx.need(fac in found, '%s no longer builds a %s stop rule' % (f.qualname, fac))
+            for st, args, kws in found[fac]:
+                want = [('name', r) for r in roles]
+                ctx.stats['terms_compared'] += 1
+                ctx.check(args[:len(want)] == want and not kws, '%s#%s' % (f.qualname, fac), '%s(%s)' % (fac, ', '.join(roles)),
+                          '%s builds its stop rule as %s: the caller\'s tolerances are not in the roles (%s) of the reference method' % (f.qualname, norm_stmt(st)[:70], ', '.join(roles)), f, st)
+
+
+@rule('C08.j', min_instances=8)
+def de_replaces_only_on_strict_improvement(ctx):
+    """differential evolution, every path of _Step: a member (and the best) is replaced only where the path has established `trial energy < incumbent` as a TRUE test - not merely the failure of `>=`, which also lets a NaN energy through (shared with C01.c)"""
+    from .c01 import de_energy_stored_with_its_point
+    de_energy_stored_with_its_point(ctx)
